@@ -14,6 +14,7 @@ DRV = os.environ.get('DRIVER', os.path.join(ROOT, '.cache', 'extract', 'driver')
 NP = int(os.environ.get('NP', '8'))
 UNITS = os.environ.get('UNITS', 'e2e,e2e_panic')
 DEFAULT = gen.DEFAULT_CFG
+VTAGS = {}   # oracle-violation tag -> case ids of the last run (the measurement units eofhyp / crlfhyp / idemhyp report through V lines)
 ALL = "seeds seeds30 seeds60 seeds120 grammar childline matrix literal soup soup30 mut mut2 bytes cfg toggles asm crlf".split()
 
 
@@ -128,7 +129,7 @@ def run(name, items, keep=False):
                 except OSError: pass
             mine = nxt; part += 1
         return rcs, qrc_all, "".join(outs), errs, th, td
-    ok = 0; diffs = []; xs = []; skipped = []; dt = 0.0; crashed = 0; viols = 0
+    ok = 0; diffs = []; xs = []; skipped = []; dt = 0.0; crashed = 0; viols = 0; VTAGS.clear()
     with ThreadPoolExecutor(max_workers=nsh) as ex:
         for rc, qrc, out, err, th, td in ex.map(one, range(nsh)):
             dt += td
@@ -140,7 +141,9 @@ def run(name, items, keep=False):
                     if p[3] == "OK": ok += 1
                     else: diffs.append((p[1], p[4] if len(p) > 4 else ""))
                 elif p[0] == "K": skipped.append(line)
-                elif p[0] == "V": viols += 1
+                elif p[0] == "V":
+                    viols += 1
+                    if len(p) > 3: VTAGS.setdefault(p[3], []).append(p[1])
                 elif p[0] == "X": xs.append(line)
     return ok, diffs, xs, skipped, dt, crashed, viols
 
@@ -161,6 +164,7 @@ if __name__ == "__main__":
               % (name, len(items), ok, len(diffs), len(skipped), len(xs), crashed, dt, 1e6 * dt / max(1, ok + len(diffs)), time.time() - t0,
                  (" oracle-V %d" % viols) if viols else ""), flush=True)
         tot[0] += len(items); tot[1] += ok; tot[2] += len(diffs); tot[3] += len(skipped)
+        for tag in sorted(VTAGS): print("    V %-60s %6d  e.g. %s" % (tag, len(VTAGS[tag]), " ".join(VTAGS[tag][:3])))
         for x in xs[:3]: print("   ", x[:300])
         for x in skipped[:3]: print("   ", x[:300])
         idx = {("%s%d" % (name, i)): t for i, t in enumerate(items)}
